@@ -171,6 +171,15 @@ def ufuncResult {α : Type} : Nat → Name → String → Bool → Bool → List
 /-- the ufunc (and role) a special method of NumPy's operator mixin calls -/
 def opUfunc (dunder : Name) : Option (Name × Name) := (operatorTable.find? (fun e => e.1 == dunder)).map (·.2)
 
+/-! ### the trial call of the out= path -/
+
+/-- Before anything is computed for `out=`, the ufunc is tried on one-element arrays of the operands' dtypes (to learn whether the
+requested output is admissible: casting).  `raisesOn v`: does the ufunc raise when every array operand holds the value `v`
+(integer `power` does for a negative exponent).  The source builds those arrays with `np.ones` (`Gen.ufuncOutTrialOnes`) or with
+`np.empty` — then they hold whatever the memory held, `mem`. -/
+def outTrialRaises (raisesOn : Int → Bool) (mem : Int) : Bool :=
+  raisesOn (if ufuncOutTrialOnes then 1 else mem)
+
 /-! ### what `out=` holds afterwards -/
 
 /-- a storage format; a GCXS carries its compressed axes -/
